@@ -5,7 +5,7 @@
 (* (events computed by BiomModel), so the model is checked against exactly *)
 (* the clause set the implementation is judged by.                         *)
 (***************************************************************************)
-EXTENDS BiomProps2
+EXTENDS BiomProps3
 
 CallClauses(ev) ==
   CASE ev.call = "filter" ->
@@ -28,6 +28,11 @@ CallClauses(ev) ==
     [] ev.call = "norm"         -> Clauses_norm(ev) @@ InplaceClauses(ev)
     [] ev.call = "pa"           -> Clauses_pa(ev) @@ InplaceClauses(ev)
     [] ev.call = "rankdata"     -> Clauses_rankdata(ev) @@ InplaceClauses(ev)
+    [] ev.call = "merge"        -> Clauses_merge(ev)
+    [] ev.call = "concat"       -> Clauses_concat(ev)
+    [] ev.call = "partition"    -> Clauses_partition(ev)
+    [] ev.call = "collapse"     -> IF ev.args.one_to_many THEN Clauses_collapse_otm(ev) ELSE Clauses_collapse(ev)
+    [] ev.call = "subsample"    -> Clauses_subsample(ev)
     [] OTHER -> [TRACE_unknown_call |-> FALSE]
 
 \* clauses index tables by position; if some logged table is not even well-shaped they are
